@@ -1,5 +1,5 @@
 #!/usr/bin/env python3
-"""tools/audit.py [--slots N] [--tier quick] [ids...]: runs every seeded change (seeded/<id>/patch.diff) against the
+"""tools/audit.py [--slots N] [--slot-base K] [--tier quick] [--staging] [ids...]: runs every seeded change (seeded/<id>/patch.diff) against the
 check of its property in scratch worktrees (tools/try_mutant_wt.sh; /repo is never touched) and writes
 audit/results.json: which check catches which change, with the first violation key."""
 import json, os, re, subprocess, sys, glob
@@ -11,6 +11,9 @@ if "--slots" in args:
     i = args.index("--slots"); slots = int(args[i + 1]); del args[i:i + 2]
 if "--tier" in args:
     i = args.index("--tier"); tier = args[i + 1]; del args[i:i + 2]
+slot0 = 0
+if "--slot-base" in args:
+    i = args.index("--slot-base"); slot0 = int(args[i + 1]); del args[i:i + 2]
 base = "seeded_staging" if "--staging" in args else "seeded"
 args = [a for a in args if a != "--staging"]
 ids = args or sorted(os.path.basename(d) for d in glob.glob(os.path.join(ROOT, base, "*")))
@@ -21,7 +24,7 @@ def run(slot):
     out = []
     for mid in jobs[slot]:
         prop = mid.split("-")[0]
-        p = subprocess.run([os.path.join(ROOT, "tools", "try_mutant_wt.sh"), os.path.join(ROOT, base, mid, "patch.diff"), prop, tier, str(slot)],
+        p = subprocess.run([os.path.join(ROOT, "tools", "try_mutant_wt.sh"), os.path.join(ROOT, base, mid, "patch.diff"), prop, tier, str(slot0 + slot)],
                            stdout=subprocess.PIPE, stderr=subprocess.STDOUT, text=True)
         line = p.stdout.strip().splitlines()[-1] if p.stdout.strip() else ""
         key = (re.search(r"key=(\S+)", line) or [None, None])[1]
